@@ -41,7 +41,7 @@ Definition hdr_eqb (a b : hdr) : bool :=
   && list_eqb (fun x y => bytes_eqb (fst (fst x)) (fst (fst y)) && bytes_eqb (snd (fst x)) (snd (fst y))
                           && zlist_eqb (snd x) (snd y)) (snd a) (snd b).
 
-Definition in_scope (d : byte) (t : table) : bool := table_ok_b t && delim_ok_b d.
+Definition in_scope (d : byte) (t : table) : bool := table_ok_b t && delim_ok_b d && strings_noeol_b t.
 
 (* Recfile(mode='w', delim=d).write(t); Recfile(mode='r', dtype=t.dtype, delim=d).read()
    text = the whole file; out = the array read back (or the error class) *)
